@@ -322,7 +322,14 @@ class Runner:
             else:
                 os.remove(f)
         # keep at most 30 failed run directories
-        old = sorted(glob.glob(os.path.join(self.here, "build", "C*-*-*")), key=os.path.getmtime)
+        # (never the directory of a run that is still going on: its name ends in the pid of its driver)
+        def running(d):
+            try:
+                os.kill(int(d.rsplit("-", 1)[1]), 0)
+                return True
+            except (ValueError, OSError):
+                return False
+        old = sorted((d for d in glob.glob(os.path.join(self.here, "build", "C*-*-*")) if not running(d)), key=os.path.getmtime)
         for d in old[:-30]:
             shutil.rmtree(d, ignore_errors=True)
 
